@@ -20,6 +20,7 @@ type syncState struct {
 	m           *MapV
 	val         Value
 	hasVal      bool
+	pool        []Value // sync.Pool: items put back, most recent last
 }
 
 type uniqueEnt struct {
@@ -606,8 +607,16 @@ func registerIntrinsics(e *Engine) {
 		ex.callValue(a[1], nil)
 		return nil
 	}
+	// sync.Pool with maximal reuse: Get hands back the most recently Put item (what
+	// a per-P pool does in the common case), so that use of an object after it
+	// was returned to the pool shows up as aliasing
 	I["(*sync.Pool).Get"] = func(ex *Exec, fn *ssa.Function, a []Value) Value {
 		p := a[0].(PtrV)
+		if st := ex.syncOf(p); len(st.pool) > 0 {
+			v := st.pool[len(st.pool)-1]
+			st.pool = st.pool[:len(st.pool)-1]
+			return v
+		}
 		pt := fn.Signature.Recv().Type().(*types.Pointer).Elem()
 		idx := structFieldIndex(pt, "New")
 		nf := ex.load(PtrV{obj: p.obj, path: extendPath(p.path, pathElem{field: idx})})
@@ -616,7 +625,14 @@ func registerIntrinsics(e *Engine) {
 		}
 		return IfaceV{}
 	}
-	I["(*sync.Pool).Put"] = nop
+	I["(*sync.Pool).Put"] = func(ex *Exec, fn *ssa.Function, a []Value) Value {
+		st := ex.syncOf(a[0].(PtrV))
+		if iv, ok := a[1].(IfaceV); ok && iv.typ == nil {
+			return nil
+		}
+		st.pool = append(st.pool, a[1])
+		return nil
+	}
 	I["(*sync.Map).Load"] = func(ex *Exec, fn *ssa.Function, a []Value) Value {
 		s := ex.syncOf(a[0].(PtrV))
 		if s.m == nil {
